@@ -64,9 +64,10 @@ class C08(InterpProp):
             'when the interpreter asked for the preconditions of that same state / transition (its entry / its start); non-trivial = the injected condition was actually reached')
 
     def knobs(self, rnd, tier):
-        return gen.Knobs(contracts=0.8, cflags=0, max_states=rnd.choice([5, 9, 13]), sends=0.15)
+        return gen.Knobs(contracts=0.8, cflags=0, max_states=rnd.choice([5, 9, 13]), sends=0.15, nil=0.3)
 
     ALWAYS = ('x >= 0', 'x + 1 > x')
+    NIL = ('__old__.nil == None', 'nil == None and __old__.nil == None', '__old__.nil == nil')
 
     def post_build(self, rnd, g, sc):
         n = 0
@@ -156,6 +157,21 @@ class C08(InterpProp):
                 if m and m.group(1) in self.ALWAYS:
                     res.violations.append('step %d: %s for condition %r of %s, which holds (its flag is true)'
                                           % (k, r['err']['class'], cond, r['err'].get('obj')))
+                # `nil` is defined and holds None from the preamble on: what is said about it and about its
+                # `__old__` holds, and evaluating it raises nothing
+                text = cond + ' ' + str(r['err'].get('msg') or '')
+                last = [e for e in r['eff'] if e[0] == 'cond'][-1:]
+                if last and last[0][5] is None:
+                    e = last[0]
+                    o = trans[e[2][1]] if e[2][0] == 't' else sc.state_for(e[2][1])
+                    lst = {'pre': o.preconditions, 'post': o.postconditions, 'inv': o.invariants}[e[1]]
+                    if e[3] < len(lst):
+                        text += ' ' + lst[e[3]]
+                for c in self.NIL:
+                    if c in text:
+                        res.violations.append('step %d: %s for a condition built on %r, which holds (nil is None all along): %s'
+                                              % (k, r['err']['class'], c, text[:200]))
+                        break
                 break
             exp = expected_points(sc, trans, r.get('step'), ob['world']['slots'][0]['config'])
             got = [e for e in r['eff'] if e[0] in ('exit', 'action', 'entry', 'cond')]
